@@ -131,7 +131,34 @@ SPEC = {
         {"name": "mgmp_u", "src": ["c10_mgmp.cpp"], "variant": "ubsan", "libs": _GMP, "chunk": 4, "tiers": ["thorough"],
          "configs": {"mg_exhaustive": {"thorough": MGT}, "mg_fixed": {"thorough": 200}, "mg_random": {"thorough": 2000}}},
     ],
-    "floors": {"quick": {}, "thorough": {}},
+    "floors": {
+        "quick": {
+            # deterministic exhaustive tables: exact block counts (a lost block would void the 'exhaustive' note)
+            "blocks.exhaustive.p31": 499, "blocks.exhaustive.p2": 55, "blocks.exhaustive.product35": 528, "blocks.exhaustive.product15": 516,
+            # every class of the property is exercised
+            "class.Z2_field_element": 14, "class.Z2_field_operators": 8, "class.Zp_field_element": 900, "class.Shared_Zp_field_element": 900,
+            "class.Zp_field_operators": 450, "class.Field_Zp": 150, "class.Multi_field_element": 100, "class.Shared_multi_field_element": 120,
+            "class.Multi_field_operators": 150, "class.Multi_field_element_with_small_characteristics": 600,
+            "class.Shared_multi_field_element_with_small_characteristics": 900, "class.Multi_field_operators_with_small_characteristics": 300,
+            "class.pcoh::Multi_field": 50,
+            # operation kinds
+            "op.convert.int": 45000, "op.convert.long": 55000, "op.convert.uint": 40000, "op.convert.ulong": 40000, "op.convert.big": 4000,
+            "op.add": 1500000, "op.sub": 1500000, "op.mul": 1500000, "op.add_mixed": 25000000, "op.sub_mixed": 25000000, "op.mul_mixed": 25000000,
+            "op.inplace": 45000000, "op.fused.mul_add": 13000000, "op.fused.add_mul": 13000000, "op.cmp": 1500000, "op.cmp_mixed": 14000000,
+            "op.inverse": 140000, "op.partial_inverse": 350000, "op.partial_identity": 30000, "op.get_value": 12000,
+            "op.coh.plus_times_equal": 600000, "op.coh.times_minus": 60000, "op.refuse": 330,
+            # state classes named by why_tests_cant: operands p-1, negative / below -p, unreduced, word-wrapping sums, primes near 2^16, one-prime ranges
+            "state.negative_operand": 18000, "state.operand_below_minus_p": 12000, "state.operand_ge_p": 14000, "state.operand_p_minus_1": 3000,
+            "state.result_needed_reduction": 1800000, "state.sum_wraps_uint32": 100000, "state.fused_exact_above_2p31": 400000,
+            "state.partial_inverse_some_primes": 70000, "state.partial_inverse_no_prime": 80000, "state.partial_proper_subproduct": 250000,
+            "blocks.prime_ge_32749": 15, "blocks.product_above_2p31": 40, "blocks.product_above_64_bits": 60, "blocks.multi_prime_range": 1200,
+            "refuse.composite": 150, "refuse.range_without_prime": 50, "refuse.single_composite": 50, "refuse.not_greater_than_1": 15,
+            "refuse.prime_above_documented_maximum": 2,
+            "threads.concurrent_runs": 16, "probe.compile_time_refusals": 13,
+            "_distinct_nontrivial": 3000,
+        },
+        "thorough": {},
+    },
     "exhaustive": {"quick": False, "thorough": False},
     "exhaustive_note": "complete enumeration only of these sub-spaces: (a) single-prime run-time classes (Zp_field_operators, Shared_Zp_field_element, "
                        "Field_Zp, Z2 classes) for every prime p <= 31 (quick) / <= 97 (thorough) and Zp_field_element<p> for p <= 31 / <= 61: all operand "
